@@ -163,6 +163,11 @@ def _families():
                      ["new", 2, 1], ["set", 0, 0, 2], ["query", 2]], "abnormal-eval"))
         out.append(([["pre", ["new", 900, 1], ["new", 901, 1], ["qabandon", 1]], ["new", 0, 2], ["new", 1, 2],
                      ["new", 2, 1], ["set", 1, 0, 2], ["query", 1]], "abnormal-eval"))
+        # a container assertion (children.append) whose inference overwrites a scalar field (parent of the item): the value
+        # it overwrites dies at once; with and without queries over the class
+        for ops in _sg.overwrite_families():
+            out.append((ops, "container-overwrite"))
+            out.append((ops + [["query", 1]], "container-overwrite"))
         yield from ((n, ops, tag) for ops, tag in out)
         out = []
 
